@@ -37,6 +37,7 @@ type Result struct {
 	VirtualSec float64        `json:"virtualSec"`
 	Signature  string         `json:"signature"`
 	States     int            `json:"states"`
+	notes      []string
 	NonTrivial bool           `json:"nonTrivial"`
 	Stats      map[string]int `json:"stats"`
 	Faults     map[string]int `json:"faults"`
@@ -108,7 +109,11 @@ func RunPlan(t *testing.T, plan *Plan, ch *Choices, traceAll bool) (res *Result)
 	res.Stats["mon.c20.compared"]++
 	if len(res.Violations) == 0 && res.summary != nil && tres.summary != nil {
 		if diff := diffSummaries(tres.summary, res.summary); diff != "" {
-			res.Violations = append(res.Violations, Violation{Monitor: "C20/diverged", Step: res.Steps, Msg: "outcome differs from the fault-free run of the same workload: " + diff})
+			msg := "outcome differs from the fault-free run of the same workload: " + diff
+			if len(res.notes) > 0 {
+				msg += " | notes: " + strings.Join(res.notes, "; ")
+			}
+			res.Violations = append(res.Violations, Violation{Monitor: "C20/diverged", Step: res.Steps, Msg: msg})
 		}
 	}
 	return res
@@ -173,6 +178,7 @@ func runInBubble(plan *Plan, ch *Choices, traceAll bool, res *Result) {
 	res.Choices = len(ch.Rec)
 	res.choices = ch.Rec
 	res.APICalls = s.callN
+	res.notes = s.Notes
 	res.NonTrivial = preset.nonTrivial(w)
 	if plan.Property == "C20" && len(s.Viol) == 0 {
 		res.summary = summarize(w)
